@@ -20,7 +20,7 @@ from ..runner import Entry, corpus_cases
 from . import c18_translate
 
 PRE = ("From Coq Require Import QArith.\nFrom EsVerif.Common Require Import Base.\n"
-       "From EsVerif.C18 Require Import Model Spec SpecTol ModelKw Exec.\n")
+       "From EsVerif.C18 Require Import Model Spec SpecTol ModelKw UndefModel Exec.\n")
 
 
 # ----------------------------------------------------------------------------
@@ -90,6 +90,28 @@ def guarded(f):
     if r[0] == "ok" and not _all_finite(r[1]):
         return ("err", "EOther", "non-finite output %r" % (r[1],))
     return r
+
+
+def _nf_cols(vals, ncol):
+    """for every column: is some returned value of that column not finite (a 0-d value counts for every column)"""
+    out = []
+    for j in range(ncol):
+        bad = False
+        for v in vals:
+            if v is None:
+                continue
+            t = v[j] if isinstance(v, list) else v
+            bad = bad or not math.isfinite(t)
+        out.append(bad)
+    return out
+
+
+def _has_zero_weight(w):
+    return w is not None and any(t == 0 for t in _flat(w))
+
+
+def cbools(bs):
+    return "[" + "; ".join("true" if b else "false" for b in bs) + "]"
 
 
 def _all_finite(v):
@@ -449,6 +471,16 @@ class WMom(E):
                        "sdev": True, "family": "inputmean-exactly-zero"})
             cs.append({"x": [[3.0, 1.0], [4.5, 2.0], [6.0, 4.0]], "w": [1.0, 2.0, 1.0], "im": 0.0, "calcerr": False,
                        "sdev": True, "family": "inputmean-exactly-zero"})
+            # total weight zero: the moments do not exist (all-zero weights; one all-zero column of N-by-d weights)
+            for ce in (False, True):
+                cs.append({"x": [3.0, 4.5, 6.0], "w": [0.0, 0.0, 0.0], "im": None, "calcerr": ce, "sdev": True,
+                           "family": "undefined:all-zero-weights"})
+                cs.append({"x": [3.0, 4.5, 6.0], "w": [0.0, 0.0, 0.0], "im": 4.0, "calcerr": ce, "sdev": True,
+                           "family": "undefined:all-zero-weights"})
+                cs.append({"x": [[3.0, 1.0], [4.5, 2.0], [6.0, 4.0]], "w": [[1.0, 0.0], [2.0, 0.0], [1.0, 0.0]], "im": None,
+                           "calcerr": ce, "sdev": True, "family": "undefined:zero-weight-column"})
+                cs.append({"x": [[3.0, 1.0], [4.5, 2.0], [6.0, 4.0]], "w": [0.0, 0.0, 0.0], "im": None,
+                           "calcerr": ce, "sdev": False, "family": "undefined:all-zero-weights"})
             cs.append({"x": 5.0, "w": 2.0, "im": None, "calcerr": True, "sdev": True, "ct": {"x": "scalar", "w": "scalar"},
                        "family": "scalar-input"})
             cs.append({"x": 5.0, "w": 2.0, "im": 4.5, "calcerr": True, "sdev": True, "ct": {"x": "0d", "w": "0d"},
@@ -468,8 +500,12 @@ class WMom(E):
             kw = {"inputmean": im, "calcerr": c["calcerr"], "sdev": c["sdev"]}
             if c.get("omit_defaults"):
                 kw = {k: v for k, v in kw.items() if not (v is None or v is False)}
-            res = st.wmom(x, w, **kw)
-            return [canon(v) for v in res]
+            res = [canon(v) for v in st.wmom(x, w, **kw)]
+            if not _all_finite(res):
+                # statistics that do not exist (zero total weight) come back as nan / inf: reported per column
+                ncol = len(c["x"][0]) if (isinstance(c["x"], list) and c["x"] and isinstance(c["x"][0], list)) else 1
+                return [None, _nf_cols(res, ncol)]
+            return res
         return guarded(f)
 
     @staticmethod
@@ -485,12 +521,15 @@ class WMom(E):
             return "(%s, %s, %s)" % (nd(o[0]), nd(o[1]), opt(o[2] if len(o) > 2 else None, nd))
         # float32 data minus a python-float mean is evaluated in float32 by numpy
         f4 = ct_of(c, "x") == "f4" and c["im"] is not None and not isinstance(c["im"], list)
-        return "%s %s %s %s %s %s %s" % ("v_wmom_e eps_f4" if f4 else "v_wmom", nd(c["x"]), nd(c["w"]), self._im(c["im"]),
-                                         cbool(c["calcerr"]), cbool(c["sdev"]), cres(out, pout))
+        if out[0] == "ok" and out[1][0] is None:
+            return "v_wmom_undef %s %s %s" % (nd(c["x"]), nd(c["w"]), cbools(out[1][1]))
+        t = "%s %s %s %s %s %s %s" % ("v_wmom_e eps_f4" if f4 else "v_wmom", nd(c["x"]), nd(c["w"]), self._im(c["im"]),
+                                      cbool(c["calcerr"]), cbool(c["sdev"]), cres(out, pout))
+        return "wmom_guard %s %s (%s)" % (nd(c["x"]), nd(c["w"]), t) if _has_zero_weight(c["w"]) else t
 
     def nontrivial(self, c, out):
         x = c["x"]
-        return isinstance(x, list) and len(x) >= 3 and not _weights_equal(c["w"]) and out[0] == "ok"
+        return isinstance(x, list) and len(x) >= 3 and not _weights_equal(c["w"]) and out[0] == "ok" and out[1][0] is not None
 
     def show(self, c):
         return "wmom %s %s %s %s %s" % (nd(c["x"]), nd(c["w"]), self._im(c["im"]), cbool(c["calcerr"]), cbool(c["sdev"]))
@@ -599,6 +638,16 @@ class SigmaClip(E):
             cs.append({"x": [4.0, 4.0, 4.0], "w": None, "nsig": 3.0, "niter": 4, "family": "constant-data"})
             cs.append({"x": [1.0, 2.0, 3.0], "w": [1.0, 2.0], "nsig": 3.0, "niter": 4, "family": "rejected-size"})
             cs.append({"x": [[1.0, 2.0], [3.0, 4.0]], "w": None, "nsig": 3.0, "niter": 4, "family": "rejected-2d"})
+            # statistics that do not exist: the survivors of a round all have weight zero; all weights zero
+            cs.append({"x": [0.0, 4.0, 6.0, 10.0], "w": [1.0, 0.0, 0.0, 1.0], "nsig": 0.5, "niter": 4, "family": "undefined:zero-weight-survivors"})
+            cs.append({"x": [0.0, 4.0, 6.0, 10.0], "w": [1.0, 0.0, 0.0, 1.0], "nsig": 0.5, "niter": 1, "family": "undefined:zero-weight-survivors"})
+            cs.append({"x": [0.0, 4.0, 6.0, 10.0], "w": [1.0, 0.0, 0.0, 1.0], "nsig": 0.5, "niter": 0, "family": "undefined:not-reached(niter=0)"})
+            cs.append({"x": [-30.0, 0.0, 4.0, 6.0, 10.0, 50.0], "w": [1.0, 2.0, 0.0, 0.0, 2.0, 1.0], "nsig": 1.0, "niter": 6,
+                       "family": "undefined:zero-weight-survivors"})
+            cs.append({"x": [1.0, 2.0, 3.0], "w": [0.0, 0.0, 0.0], "nsig": 3.0, "niter": 4, "family": "undefined:all-zero-weights"})
+            cs.append({"x": [1.0, 2.0, 3.0], "w": [0.0, 0.0, 0.0], "nsig": 3.0, "niter": 0, "family": "undefined:all-zero-weights"})
+            cs.append({"x": [0.04056, 0.12891, 0.06295, 0.4656], "w": [3.93, 0.0, 0.0, 2.99], "nsig": 0.532, "niter": 6,
+                       "family": "undefined:zero-weight-survivors"})
             for t in _tie_cases(r)[::3]:         # the same exact ties handed over as integer arrays / lists
                 t = dict(t, ct={"x": r.choice(["i4", "i8", "list"])}, family=t["family"] + "[int/list]")
                 if t["w"] is not None:
@@ -642,6 +691,8 @@ class SigmaClip(E):
                     raise RuntimeError("extra['indices'] differs from the returned indices")
             else:
                 m, s, e, idx = res
+            if not all(math.isfinite(float(t)) for t in (m, s, e)):
+                return [None, None, None, [int(i) for i in idx]]      # statistics that do not exist
             return [float(m), float(s), float(e), [int(i) for i in idx]]
         return guarded(f)
 
@@ -652,12 +703,16 @@ class SigmaClip(E):
                 cres(out, lambda o: "(%s, %s, %s, %s)" % (q1(o[0]), q1(o[1]), q1(o[2]), clist(o[3]))))
         # unweighted statistics of a float32 array (mean, std) and the clip comparison are evaluated in float32
         f4 = ct_of(c, "x") == "f4" and c["w"] is None
-        return "%s %s %s %s %s %s" % (
-            "v_sigma_clip_e eps_f4" if f4 else "v_sigma_clip", qs(c["x"]), opt(c["w"], qs), cz(c["niter"]), q1(c["nsig"]),
-            cres(out, lambda o: "(%s, %s, %s, %s)" % (q1(o[0]), q1(o[1]), q1(o[2]), clist(o[3]))))
+        args = "%s %s %s %s" % (qs(c["x"]), opt(c["w"], qs), cz(c["niter"]), q1(c["nsig"]))
+        if out[0] == "ok" and out[1][0] is None:
+            bord = "(sc_borderline %s %s (Z.to_nat %s) %s)" % (qs(c["x"]), opt(c["w"], qs), cz(c["niter"]), q1(c["nsig"]))
+            return "v_sigma_clip_undef %s %s %s" % (bord, args, clist(out[1][3]))
+        t = "%s %s %s" % ("v_sigma_clip_e eps_f4" if f4 else "v_sigma_clip", args,
+                          cres(out, lambda o: "(%s, %s, %s, %s)" % (q1(o[0]), q1(o[1]), q1(o[2]), clist(o[3]))))
+        return "sc_guard %s (%s)" % (args, t) if _has_zero_weight(c["w"]) else t
 
     def nontrivial(self, c, out):
-        return out[0] == "ok" and len(c["x"]) >= 3 and len(out[1][3]) < len(c["x"])
+        return out[0] == "ok" and out[1][0] is not None and len(c["x"]) >= 3 and len(out[1][3]) < len(c["x"])
 
     def classify(self, c, out, v):
         # verdict 12 (Exec.v_sigma_clip): the output is what the code-faithful model computes, and the clause as
@@ -818,6 +873,16 @@ class GetStats(E):
         if round == 0:
             cs.append({"x": [[1.0, 2.0], [3.0, 5.0]], "w": None, "nsig": 3.0, "niter": None, "family": "rejected-2d-clip"})
             cs.append({"x": 5.0, "w": None, "nsig": None, "niter": None, "ct": {"x": "scalar"}, "family": "scalar-input"})
+            # statistics that do not exist
+            cs.append({"x": [1.0, 2.0, 3.0], "w": [0.0, 0.0, 0.0], "nsig": None, "niter": None, "family": "undefined:all-zero-weights"})
+            cs.append({"x": [1.0, 2.0, 3.0], "w": [0.0, 0.0, 0.0], "nsig": None, "niter": None, "calcerr": False,
+                       "family": "undefined:all-zero-weights"})
+            cs.append({"x": [[3.0, 1.0], [4.5, 2.0], [6.0, 4.0]], "w": [0.0, 0.0, 0.0], "nsig": None, "niter": None,
+                       "family": "undefined:all-zero-weights"})
+            cs.append({"x": [0.0, 4.0, 6.0, 10.0], "w": [1.0, 0.0, 0.0, 1.0], "nsig": 0.5, "niter": 4,
+                       "family": "undefined:zero-weight-survivors"})
+            cs.append({"x": [0.0, 4.0, 6.0, 10.0], "w": [1.0, 0.0, 0.0, 1.0], "nsig": 0.5, "niter": None,
+                       "family": "undefined:zero-weight-survivors"})
             cs.append({"x": [3.0, 1.0, 2.0, 40.0], "w": [1.0, 2.0, 3.0, 1.0], "nsig": None, "niter": None,
                        "ct": {"x": "i4", "w": "i8"}, "family": "int-arrays"})
         return cs
@@ -844,17 +909,25 @@ class GetStats(E):
                 kw["doprint"] = True
             with contextlib.redirect_stdout(io.StringIO()):
                 g = st.get_stats(A(c, "x"), weights=w, **kw)
-            return [canon(g["min"]), canon(g["max"]), canon(g["mean"]), canon(g["std"]), canon(g["err"]),
-                    [int(i) for i in ex.get("indices", [])]]
+            vals = [canon(g["mean"]), canon(g["std"]), canon(g["err"])]
+            idx = [int(i) for i in ex.get("indices", [])]
+            if not _all_finite(vals) and _all_finite([canon(g["min"]), canon(g["max"])]):
+                ncol = len(c["x"][0]) if (isinstance(c["x"], list) and c["x"] and isinstance(c["x"][0], list)) else 1
+                return [None, _nf_cols(vals, ncol), idx]                 # statistics that do not exist
+            return [canon(g["min"]), canon(g["max"])] + vals + [idx]
         return guarded(f)
 
     def term(self, c, out):
-        return "v_get_stats_kw %s %s %s %s %s %s" % (
-            nd(c["x"]), opt(c["w"], nd), opt(c["nsig"], q1), opt(c["niter"], cz), opt(c.get("calcerr"), cbool),
+        a4 = "%s %s %s %s" % (nd(c["x"]), opt(c["w"], nd), opt(c["nsig"], q1), opt(c["niter"], cz))
+        if out[0] == "ok" and out[1][0] is None:
+            return "v_get_stats_undef %s %s %s" % (a4, cbools(out[1][1]), clist(out[1][2]))
+        t = "v_get_stats_kw %s %s %s" % (
+            a4, opt(c.get("calcerr"), cbool),
             cres(out, lambda o: "(%s, %s, %s, %s, %s, %s)" % (nd(o[0]), nd(o[1]), nd(o[2]), nd(o[3]), nd(o[4]), clist(o[5]))))
+        return "gs_guard %s (%s)" % (a4, t) if _has_zero_weight(c["w"]) else t
 
     def nontrivial(self, c, out):
-        if out[0] != "ok" or not isinstance(c["x"], list) or len(c["x"]) < 3:
+        if out[0] != "ok" or out[1][0] is None or not isinstance(c["x"], list) or len(c["x"]) < 3:
             return False
         if c["nsig"] is not None or c["niter"] is not None:
             return len(out[1][5]) < len(c["x"])
@@ -1133,6 +1206,11 @@ def differential(ctx, entries, replay_case=None):
                 ctx.count("kf_everything_clipped:" + ent.name)
                 ctx.count("kf_everything_clipped:%s:%s" % (ent.name, ent.family(c)))
                 continue        # failing cases of a (proposed) known class are reported, not counted as evaluations
+            if v == -2:
+                ctx.count("undefined_statistics:" + ent.name)
+                ctx.count("undefined_statistics:%s:%s" % (ent.name, ent.family(c)))
+                ctx.count("undefined_statistics")
+                continue
             if v == -1:
                 ctx.count("borderline_skipped:" + ent.name)
                 ctx.count("borderline_skipped:%s:%s" % (ent.name, ent.family(c)))
